@@ -305,6 +305,10 @@ def run(ctx):
     check_case(ctx, zero_case, [{"kind": "all_blocks", "pos": "entry", "exclude": None}], False, pending)
     for _ in range(ctx.budget(800, 20000)):
         case = rename_functions(emodify.gen_case(ctx.rng, nedits=0), ctx.rng)
+        # some blocks end in a system call instead of a call: a terminator with a Syscall edge
+        for d in case["text"]:
+            if d["kind"] == "code" and d["insns"][-1][0] == "call" and ctx.rng.random() < 0.3:
+                d["insns"][-1] = ["syscall"]
         if ctx.rng.random() < 0.4:
             code = [i for i, d in enumerate(case["text"]) if d["kind"] == "code"]
             case["entry"] = ctx.rng.choice(code)
